@@ -53,6 +53,11 @@ def match_known(prop, ob, known):
             continue
         if f.get('obligation') != ob.name:
             continue
+        rx = f.get('input_regex')
+        if rx is not None:
+            fails = ob.extra.get('failing_inputs') or []
+            if not fails or not all(re.search(rx, x) for x in fails):
+                continue
         sig = f.get('signature')
         if sig is not None:
             hay = json.dumps(ob.witness, sort_keys=True) + '\n' + ob.detail + '\n' + ob.clause
